@@ -318,6 +318,9 @@ func GenPlan(prop string, seed uint64) *Plan {
 
 	healAt := p.UntilMs
 	if pr.liveness {
+		// the view timer must be fixed and well above the message delay for the property's premise to hold
+		p.ViewDur = ViewDur{Kind: "fixed", Ms: p.ViewDur.Ms}
+		p.MaxViews = 0
 		healAt = p.UntilMs * g.rng(30, 60) / 100
 	}
 	if !faultFree {
